@@ -14,7 +14,7 @@ RULE = ("for valid SPEC-generated exchanges (Valve: info / players / rules units
         "(by position in the vector all but the last / only the first / all but the first in reverse order), a malformed datagram arrives after such a selection; "
         "bases are added until every kind of unit occurs; and recovering vectors at two or three units of one query at once (each unit has its own r+1 tries); attempts are counted on the wire "
         "(initial request of that unit), the result is compared with the fault-free result. For the families with whole-query "
-        "C10 theorems (Props/C10_<family>_whole.lean: valve, quake, gs2, gs3, jc2m, ffow, gs1 — valve, gs3 and gs1 also with silences / malformed datagrams after some datagrams of the reply —, unreal2, mindustry — a socket per attempt —, mcbedrock, mcjava, mclegacy) every injected script is also "
+        "C10 theorems (Props/C10_<family>_whole.lean: valve, theship — the Valve plans through the conversion that requires the sections it only tried —, quake, gs2, gs3, jc2m, ffow, gs1 — valve, theship, gs3 and gs1 also with silences / malformed datagrams after some datagrams of the reply —, unreal2, mindustry — a socket per attempt —, mcbedrock, mcjava, mclegacy) every injected script is also "
         "rebuilt by the model driver from the SPEC's plan (entry <family>plan: Spec.faultyScript / faultyFaults): the two "
         "lines must be identical, the hypotheses of the theorem are evaluated (theorem-domain count), and result and the "
         "whole list of datagrams sent (with failed flags) are compared with the SPEC's faultyExpected / faultySends. "
